@@ -49,3 +49,31 @@ def event_args(ctx) -> dict:
     """argument provider for event-triggered launches: x of the occurrence's payload"""
     payload = getattr(ctx, "payload", None) or {}
     return {"x": payload.get("x")}
+
+
+# ---- C11: task bodies that stop at a gate and then behave as scripted
+import threading as _threading
+
+GATES: dict = {}       # name -> threading.Event
+MODES: dict = {}       # name -> 'ok' | 'retry' | 'pause' | 'child'
+CHILD_TASK = [None]
+ENTERED: dict = {}     # name -> threading.Event set when the body has started
+
+
+def gated(name: str) -> str:
+    ENTERED.setdefault(name, _threading.Event()).set()
+    GATES.setdefault(name, _threading.Event()).wait(30)
+    mode = MODES.get(name, "ok")
+    if mode == "retry":
+        MODES[name] = "ok"
+        raise Retriable("again", name)
+    if mode == "pause":
+        from pynenc.workflow import WorkflowPauseError
+        raise WorkflowPauseError("pause requested by the body")
+    if mode == "child":
+        return "child:" + str(CHILD_TASK[0](name + ".child").result)
+    return "done:" + name
+
+
+def child_of(name: str) -> str:
+    return "c:" + name
